@@ -651,3 +651,6 @@ M('bucket-D39-shape-netloc', ['C15'], II, "    bucket = parsed.netloc.rsplit('@'
 M('seed7-C15-exc-info-traceback', ['C15'], II, "logger.error(f\"Failed to list S3 images from {hide_uri_users_and_pwds(s3_uri)}: {hide_uri_users_and_pwds(str(e))}\")", "logger.error(f\"Failed to list S3 images from {hide_uri_users_and_pwds(s3_uri)}: {hide_uri_users_and_pwds(str(e))}\", exc_info=True)", ['C15.R1'])
 M('seed7-C10-backlink-ignores-gray', ['C10'], FR, "            self.__ro_rgb = new   = Frame(image := cv2.cvtColor(image, cv2.COLOR_RGB2BGR), self, 'RGB')\n", "            self.__ro_rgb = new   = Frame(image := cv2.cvtColor(image, cv2.COLOR_RGB2BGR), self, 'RGB')\n            new.__ro_bgr          = self\n", ['C10.R12'])
 M('cache-slot-wrong-format', ['C10'], FR, "                self.__ro_rgb = new\n", "                self.__ro_bgr = new\n", ['C10.R12'])
+M('facets-D40-shape-plain-default', ['C18'], LN, "        fields.append((k, type(v), field(default_factory=lambda v=v: v)))  # a factory for every value: a plain default is refused for anything unhashable (set, numpy array, ...)", "        fields.append((k, type(v), field(default=v)))", ['C18.R7'])
+M('seed7-C18-terminal-from-heartbeat-facets', ['C18'], LN, "raw_data = self.facets if event_type == RunState.RUNNING else facets", "raw_data = facets if facets is not None else self.facets", ['C18.R7'])
+M('terminal-payload-test-inverted', ['C18'], LN, "raw_data = self.facets if event_type == RunState.RUNNING else facets", "raw_data = self.facets if event_type != RunState.RUNNING else facets", ['C18.R7'])
